@@ -463,20 +463,24 @@ theorem avg_refines (e : Expr) (vs : List Value) (r : Value) (h : aggregate (.av
 /-- the model's STDDEV / VARIANCE formula (`GroupAggregator::StandardDeviation`) is the specification's population
 variance / its square root -/
 theorem stddevCalc_eq_spread (n : Int) (isVar : Bool) (s q : Nat) : stddevCalc n isVar s q = Spec.Agg.spread n isVar s q := rfl
+/-- … and for INT sums (exact numerator and denominator, two conversions, one division) -/
+theorem stddevCalcInt_eq_spreadInt (n : Int) (isVar : Bool) (s q : Int) :
+    stddevCalcInt n isVar s q = Spec.Agg.spreadInt n isVar s q := rfl
 
-/-- squares and the published value for an argument type STDDEV accepts (INT, REAL) -/
-structure SqLike {α : Type} (inj : α → Value) (sq : α → α) (okSq : α → Bool) (toF : α → Nat) : Prop where
+/-- squares and the published value for an argument type STDDEV accepts (INT, REAL); `fin` = the final calculation from
+(count, Σx, Σx²) for that type -/
+structure SqLike {α : Type} (inj : α → Value) (sq : α → α) (okSq : α → Bool) (fin : Int → Bool → α → α → Nat) : Prop where
   square : ∀ y, squareOf (inj y) = if okSq y then .ok (inj (sq y)) else .error .undefinedOperation
-  value : ∀ s q c isVar, stddevValue (inj s) (inj q) c isVar = some (.real (stddevCalc c isVar (toF s) (toF q)))
+  value : ∀ s q c isVar, stddevValue (inj s) (inj q) c isVar = some (.real (fin c isVar s q))
 
-theorem sqLike_int : SqLike Value.int (fun x => x * x) (fun x => inI64 (x * x)) F64.ofInt where
+theorem sqLike_int : SqLike Value.int (fun x => x * x) (fun x => inI64 (x * x)) stddevCalcInt where
   square := by
     intro y
     simp only [squareOf, checked]
     by_cases h : inI64 (y * y) = true <;> simp [h]
   value := fun _ _ _ _ => rfl
 
-theorem sqLike_real : SqLike Value.real (fun x => F64.mul x x) (fun _ => true) id where
+theorem sqLike_real : SqLike Value.real (fun x => F64.mul x x) (fun _ => true) stddevCalc where
   square := fun y => by simp [squareOf]
   value := fun _ _ _ _ => rfl
 
@@ -487,16 +491,16 @@ theorem aggUpdate_stddev (s q v : Value) (c : Int) (isVar : Bool) :
 def sdCell (s q : Value) (n : Int) (isVar : Bool) (x : Option Value) : Cell :=
   { agg := some (.stddev s q n isVar), val := x }
 
-def sdShow {α : Type} (toF : α → Nat) (isVar : Bool) (s q : α) (n : Int) : Value :=
-  .real (stddevCalc n isVar (toF s) (toF q))
+def sdShow {α : Type} (toF : Int → Bool → α → α → Nat) (isVar : Bool) (s q : α) (n : Int) : Value :=
+  .real (toF n isVar s q)
 
-def sdLast {α : Type} (plus : α → α → α) (sq : α → α) (toF : α → Nat) (isVar : Bool) (x : Option Value) (s q : α) (n : Int) :
+def sdLast {α : Type} (plus : α → α → α) (sq : α → α) (toF : Int → Bool → α → α → Nat) (isVar : Bool) (x : Option Value) (s q : α) (n : Int) :
     List α → Option Value
   | [] => x
   | y :: ys => some (sdShow toF isVar ((y :: ys).foldl plus s) (((y :: ys).map sq).foldl plus q) (n + ((y :: ys).length : Nat)))
 
 theorem foldV_sd_num {α : Type} {inj : α → Value} {plus : α → α → α} {okp : α → Bool} {zero : α}
-    {sq : α → α} {okSq : α → Bool} {toF : α → Nat}
+    {sq : α → α} {okSq : α → Bool} {toF : Int → Bool → α → α → Nat}
     (N : NumLike inj plus okp zero) (S : SqLike inj sq okSq toF)
     (e : Expr) (isVar : Bool) (vs : List Value) (s q : α) (n : Int) (x : Option Value) (ys : List α)
     (hys : nonNull vs = ys.map inj) (hsq : ys.all okSq = true) (hok : psOk plus okp s ys = true)
@@ -533,12 +537,12 @@ theorem foldV_sd_num {α : Type} {inj : α → Value} {plus : α → α → α} 
       exact ih s q n x ys hys hsq hok hokq
 
 /-- the value shown after a NULL start -/
-def sdNullVal {α : Type} (plus : α → α → α) (sq : α → α) (toF : α → Nat) (isVar : Bool) : List α → Value
+def sdNullVal {α : Type} (plus : α → α → α) (sq : α → α) (toF : Int → Bool → α → α → Nat) (isVar : Bool) : List α → Value
   | [] => .null
   | y :: ys' => sdShow toF isVar (ys'.foldl plus y) ((ys'.map sq).foldl plus (sq y)) ((y :: ys').length : Nat)
 
 theorem foldV_sd_null {α : Type} {inj : α → Value} {plus : α → α → α} {okp : α → Bool} {zero : α}
-    {sq : α → α} {okSq : α → Bool} {toF : α → Nat}
+    {sq : α → α} {okSq : α → Bool} {toF : Int → Bool → α → α → Nat}
     (N : NumLike inj plus okp zero) (S : SqLike inj sq okSq toF)
     (e : Expr) (isVar : Bool) (vs : List Value) (ys : List α)
     (hys : nonNull vs = ys.map inj) (hsq : ys.all okSq = true)
@@ -580,12 +584,12 @@ theorem foldV_sd_init (e : Expr) (isVar : Bool) (v : Value) (vs : List Value) :
   rfl
 
 /-- the specification's STDDEV / VARIANCE of a list of one numeric type -/
-def sdResult {α : Type} (plus : α → α → α) (zero : α) (sq : α → α) (toF : α → Nat) (isVar : Bool) : List α → Value
+def sdResult {α : Type} (plus : α → α → α) (zero : α) (sq : α → α) (toF : Int → Bool → α → α → Nat) (isVar : Bool) : List α → Value
   | [] => .null
   | y :: ys' => sdShow toF isVar ((y :: ys').foldl plus zero) (((y :: ys').map sq).foldl plus zero) ((y :: ys').length : Nat)
 
 theorem sd_num_cell {α : Type} {inj : α → Value} {plus : α → α → α} {okp : α → Bool} {zero : α}
-    {sq : α → α} {okSq : α → Bool} {toF : α → Nat}
+    {sq : α → α} {okSq : α → Bool} {toF : Int → Bool → α → α → Nat}
     (N : NumLike inj plus okp zero) (S : SqLike inj sq okSq toF)
     (e : Expr) (isVar : Bool) (v : Value) (vs : List Value) (ys : List α)
     (hys : nonNull (v :: vs) = ys.map inj) (hsq : ys.all okSq = true)
